@@ -12,6 +12,7 @@ META = {
 def run(ctx):
     q = ctx.quick()
     plans = [
+        {"world": "focus_valsets", "cover": True, "steps": 6 if q else 7, "avoid": True},
         {"world": "replay", "sim": 4 if q else 25, "steps": 7 if q else 9, "avoid": True, "cap": 260 if q else 3000, "seeds": 1 if q else 3},
         {"world": "happy", "sim": 3 if q else 20, "steps": 7 if q else 10, "avoid": True, "cap": 200 if q else 3000, "seeds": 1 if q else 3},
     ]
